@@ -65,6 +65,17 @@ theorem after_failure (s0 s s' : Sys) (h0 : Init s0) (h : Reach genFacts s0 s) (
   obtain ⟨a, _, c, _⟩ := frozen_reach (reach_inv (init_inv s0 h0) h) hl h'
   exact ⟨a, c⟩
 
+/-- **accepts_sound.** The acceptance test the correspondence driver applies to every wire it observes
+(`wsconc.accepts`) only accepts a concatenation of WHOLE frames, each one a frame of one of the senders,
+optionally followed by a proper prefix of a frame whose write failed — the shape `C15_wire` gives. A
+control frame inside a data frame is therefore rejected. -/
+theorem accepts_is_sound (wire : Bytes) (senders : List Sender) (partials : List Bytes)
+    (h : accepts wire senders partials = true) :
+    ∃ (frames : List Bytes) (p : Bytes), wire = frames.flatten ++ p ∧
+      (∀ f ∈ frames, ∃ s ∈ senders, f ∈ s.frames) ∧
+      (p = [] ∨ ∃ f ∈ partials, p.length < f.length ∧ f.take p.length = p) :=
+  accepts_sound wire senders partials h
+
 /-! ### non-vacuity: a concrete system and a reachable interleaving -/
 
 def ping : Job := { bufs := [[0x89, 0x00]], isClose := false }
